@@ -258,7 +258,9 @@ Section Pipeline.
               match hres with
               | VFault => RFault [] FValidation
               | Crash e => RCrash [] e
-              | Ok ihdr =>
+              | Ok ihdr0 =>
+                  (* if len(headers) == 1: ctx.in_header = headers[0] -- which may be None *)
+                  let ihdr := match ihdr0 with Some [VNone] => None | _ => ihdr0 end in
                   match dec L C U fuel (fst (req_ty U0 i m)) (snd (req_ty U0 i m)) body with
                   | VFault => RFault [] FValidation
                   | Crash e => RCrash [] e
@@ -330,3 +332,36 @@ Section Pipeline.
         end
     end.
 End Pipeline.
+
+(** structural equality of observations, for case files *)
+Definition olist_eqb (a b : option (list val)) : bool :=
+  match a, b with
+  | Some x, Some y => val_eqb (VList x) (VList y)
+  | None, None => true
+  | _, _ => false
+  end.
+Definition call_eqb (a b : call) : bool :=
+  let '(n1, h1, a1) := a in let '(n2, h2, a2) := b in
+  text_eqb n1 n2 && olist_eqb h1 h2 && val_eqb (VList a1) (VList a2).
+Fixpoint log_eqb (a b : list call) : bool :=
+  match a, b with
+  | [], [] => true
+  | x :: r, y :: s => call_eqb x y && log_eqb r s
+  | _, _ => false
+  end.
+Definition fcode_eqb (a b : fcode) : bool :=
+  match a, b with
+  | FValidation, FValidation | FSchema, FSchema | FSoapError, FSoapError | FNotFound, FNotFound | FServer, FServer => true
+  | _, _ => false
+  end.
+Definition rsp_eqb (a b : rsp) : bool :=
+  match a, b with
+  | RReturn l1 d1, RReturn l2 d2 => log_eqb l1 l2 && xnode_eqb d1 d2
+  | RFault l1 c1, RFault l2 c2 => log_eqb l1 l2 && fcode_eqb c1 c2
+  | RCrash l1 e1, RCrash l2 e2 => log_eqb l1 l2 && exn_eqb e1 e2
+  | _, _ => false
+  end.
+
+(** what the transport does to a response document: serialise, parse *)
+Definition rsp_wire (r : rsp) : rsp :=
+  match r with RReturn l d => RReturn l (wire d) | _ => r end.
